@@ -194,6 +194,9 @@ func excludeT(t *Table, pattern string) (err error) {
 			}
 			return true, nil
 		})
+		if err != nil {
+			return err
+		}
 	}
 	if p, exclude := excludeType(typeI, pattern); exclude {
 		t.Indexes, err = filter(t.Indexes, func(idx *Index) (bool, error) {
@@ -202,6 +205,9 @@ func excludeT(t *Table, pattern string) (err error) {
 			}
 			return filepath.Match(p, idx.Name)
 		})
+		if err != nil {
+			return err
+		}
 	}
 	if p, exclude := excludeType(typeF, pattern); exclude {
 		t.ForeignKeys, err = filter(t.ForeignKeys, func(fk *ForeignKey) (bool, error) {
@@ -210,11 +216,17 @@ func excludeT(t *Table, pattern string) (err error) {
 			}
 			return filepath.Match(p, fk.Symbol)
 		})
+		if err != nil {
+			return err
+		}
 	}
 	if p, exclude := excludeType(typeTg, pattern); exclude {
 		t.Triggers, err = filter(t.Triggers, func(t *Trigger) (bool, error) {
 			return filepath.Match(p, t.Name)
 		})
+		if err != nil {
+			return err
+		}
 	}
 	if p, exclude := excludeType(typeK, pattern); exclude {
 		t.Attrs, err = filter(t.Attrs, func(a Attr) (bool, error) {
@@ -228,6 +240,9 @@ func excludeT(t *Table, pattern string) (err error) {
 			}
 			return true, nil
 		})
+		if err != nil {
+			return err
+		}
 	}
 	return
 }
@@ -241,11 +256,17 @@ func excludeV(v *View, pattern string) (err error) {
 			}
 			return true, nil
 		})
+		if err != nil {
+			return err
+		}
 	}
 	if p, exclude := excludeType(typeTg, pattern); exclude {
 		v.Triggers, err = filter(v.Triggers, func(t *Trigger) (bool, error) {
 			return filepath.Match(p, t.Name)
 		})
+		if err != nil {
+			return err
+		}
 	}
 	return
 }
